@@ -216,5 +216,8 @@ func C20(c *core.Ctx) {
 	if !ok {
 		c.Fail("B-ROUTE:unique", "field outputs", "file names unique among outputs", "", "no proof that two outputs never share a file name: Sources() would concatenate them in map order and a same-file/different-package conflict could go unnoticed", nil)
 	}
+	// B-REFCACHE: a cache keyed by the file-relative text of a $ref must live and die with one file's generator, or the code for a
+	// schema depends on which other files were processed before it
+	emit(c, a.RefCacheScope())
 	ruleMulti(c, ruleSet("A-ROUTE", "A-XPKG", "A-TYP", "A-ORDER", "A-DEF", "A-REQ", "A-REJ", "A-NOEXTRA"))
 }
